@@ -185,3 +185,11 @@ check("C14",
       design_ref="DESIGN.md 5/C14",
       level_text="exhaustive within the depth bound",
       level_note="events are delivered at quiescent points; goroutine-level races inside the monitor are covered by the scheduler cells")
+
+check("C01",
+      packages=["l3e2e"],
+      technique="deviation-bounded exhaustive enumeration of protocol-event orders (held data-transfer messages, parked block reads/commits, gated validations, application actions, disconnect/heal) on two complete real nodes (libp2p mocknet + real go-graphsync + real transports + real managers) in one bubble",
+      rule="scenario = direction x payload DAG x store configuration x validator profile; within a scenario every choice vector within the deviation bound: default = release the oldest pending item; deviations = release another pending item first, perform an application step early, inject an application action (pause/resume by either party, voucher, voucher result, disconnect, heal+restart, responder restart, clock tick). After the scripted part everything is drained. Oracle at final quiescence: initiator Completed after Accept => responder Completed and sent a final un-paused Complete, receiver's store holds every selected block byte-identical, receiver.Received = sender.Queued = unique payload size. distinct = distinct final outcomes.",
+      design_ref="DESIGN.md 5/C01",
+      level_text="exhaustive within the deviation bound over held protocol events; graphsync's internal goroutine schedule between two quiescent points is the Go runtime's",
+      level_note="graphsync and libp2p mocknet run for real (uninstrumented); payloads <= 6 blocks")
